@@ -8,7 +8,15 @@ def _call(p):
     return f
 
 
+def _mod(name):
+    def f():
+        import importlib
+        return importlib.import_module("vlib." + name)
+    return f
+
+
 REGISTRY = {
+    "C10": _mod("p_bs"),
     "C03": _call("C03"),
     "C04": _call("C04"),
 }
